@@ -4,10 +4,39 @@ import json, subprocess, os
 here = os.path.dirname(os.path.dirname(os.path.abspath(__file__)))
 props = [json.loads(l) for l in open(os.path.join(here, "properties.jsonl"))]
 # id -> (level category, technique, level text, level note, design ref)
+EXPL = "exploration"
+def e(tech, text, note, ref, cat=EXPL): return (cat, tech, text, note, ref)
 BUILT = {
- "C08": ("exploration", "reference-model monitor (u128 / big-integer oracle) over exhaustive small moduli + boundary/random workloads",
+ "C01": e("runtime monitor: real encrypt/decrypt on generated parameter corners, decided by an independent oracle decryptor (schoolbook phase with the recovered secret, big-integer rounding) and exact noise-bound checks",
+          "Random parameter sets from corner families x plaintext corner classes x 7 encryption entry points x every level are executed; decryption by the library and by the oracle decryptor must equal the plaintext (CKKS: within the deterministic worst-case bound, exact fresh noise against 21(2N+1)). Held on the executions observed.",
+          "Trusted: harness reference arithmetic (BigU cross-checked with Python at setup; reference inverse NTT with the library's published root, itself checked by C09). Correctness asserted only inside the analytic noise precondition.", "DESIGN.md §3 C01"),
+ "C02": e("runtime monitor: typed random operation programs through the real Evaluator with a shadow plaintext ring element per ciphertext; oracle decryptor + library decryptor vs shadow; exhaustive operand-size pairs",
+          "Operation programs (all BFV/BGV operations, random API form per step, all ordered size pairs up to 16, every level, both representations, BGV unequal correction factors) are executed; after every step the decrypted polynomial must equal the program evaluated in Z_t[X]/(X^N+1) whenever the worst-case noise is below threshold.",
+          "Trusted: reference polynomial arithmetic, noise growth rules in harness/src/prog.rs (sound worst-case bounds; equality asserted only inside them).", "DESIGN.md §3 C02"),
+ "C03": e("runtime monitor: random CKKS programs with complex shadow slots, tracked worst-case error bound and bit-exact expected scale; refusal scenarios in all API forms",
+          "CKKS programs incl. rescaling are executed; the recorded scale must be bit-identical to the implied product/quotient, decoded slots (library and oracle decryptor + reference embedding) within the tracked worst-case error, and level/scale mismatches or out-of-range scales must be refused in every API form.",
+          "Trusted: reference embedding (naive O(N^2) complex sums), tracked error rules in props/c03.rs; double-precision allowance of the library's documented decode path.", "DESIGN.md §3 C03"),
+ "C05": e("runtime monitor with watchdog (bounded progress): every (source,target) level pair x size x API form of the mod-switch/rescale family executed under a deadline; oracle decryptor for message preservation",
+          "All level pairs of chains of length 1..6, ciphertext sizes 2..4, three schemes, every API form: each call must return within the deadline, land on the target level, equal stepwise switching bit for bit, keep the message (exact in BFV/BGV incl. correction factor; within rounding bound in CKKS with exact scale), and upward / past-last / non-CKKS rescale requests must be refused.",
+          "Termination is decided as bounded progress (10 s deadline at N<=16); message checks inside the worst-case noise precondition.", "DESIGN.md §3 C05"),
+ "C06": e("runtime monitors on every program step (three API forms bit-compared, operand snapshots, independent validity predicate) + single-field corruption workload where every public operation must refuse",
+          "Every step of BFV/BGV/CKKS programs runs in all three API forms (bit-identical results, unchanged operands, valid results); 14 single-field corruptions x every public operation taking the operand, level/representation mismatches, invalid plaintexts and seeded keys must be refused (panic).",
+          "Any panic counts as refusal; documented no-op calls are excluded.", "DESIGN.md §3 C06"),
+ "C07": e("runtime monitor: library noise budget vs exact big-integer evaluation of the definition by the oracle decryptor on every pool element of operation programs driven down to zero budget",
+          "For every ciphertext reached (fresh, program results of sizes 2..16 at every level, budgets from full to 0, 1..6-word moduli) the reported budget must equal the exact one; fresh budgets meet the worst-case guarantee; negation keeps the budget; k-fold sums (k<=64) lose at most ceil(log2 k)+1 bits; exact decryption whenever the exact noise is inside the threshold.",
+          "Budget definition as implemented/documented; oracle decryptor for N<=1024.", "DESIGN.md §3 C07"),
+ "C08": e("reference-model monitor (u128 / big-integer oracle) over exhaustive small moduli + boundary/random workloads",
          "Every public word-level and multi-word primitive is executed on all moduli 2..127 with all operand pairs, on boundary moduli/operands of every bit size and on random multi-word operands of 1..8 words; each return value is compared with an independent u128/big-integer evaluation. Held on the executions observed; no claim beyond them.",
          "Trusted: rustc u128 arithmetic, the harness BigU (cross-checked against Python integers at setup). Domains as documented in the doc comments.", "DESIGN.md §3 C08"),
+ "C10": e("reference-model monitor: RNSBase/RNSTool routines executed on integer-generated inputs and compared with their exact integer specifications (big integers), exhaustive for small bases",
+          "CRT compose/decompose exhaustively for all bases with product <= 2^16 and sampled for 1..8 moduli of 2..61 bits; every RNSTool routine (fast base conversion, Montgomery reduction, fast floor, Shenoy-Kumaresan, their BFV composition, divide-and-round in both forms, BGV variant, scale-and-round, mod-t decryption) against its integer specification with its documented error term.",
+          "Specifications derived from the BEHZ construction; approximate routines are checked with their error terms, never for exactness.", "DESIGN.md §3 C10"),
+ "C11": e("reference-model monitor: batch encoder outputs vs naive evaluation at psi^(+-3^i); exhaustive unit vectors and every rotation step",
+          "For all batching-compatible (N,t) explored: decode(encode(v))=v, slots equal naive evaluations (all unit vectors, all monomials), sums/products decode slot-wise, every rotation step and the column swap permute the decoded matrix as documented, polynomial encoding reduces mod t.",
+          "Trusted: reference modular arithmetic; psi read from the context's plain NTT table and checked to be a primitive 2N-th root.", "DESIGN.md §3 C11"),
+ "C13": e("runtime monitor over an enumerated configuration universe: every constructible parameter object is built through the public API and checked against an independent validity predicate, big-integer constants and a reference SHA-256 identifier",
+          "Exhaustive small universe (thorough) / stratified subsample (quick) plus random large configurations and all generator calls: HeContext::new never panics, accepted => every level satisfies the preconditions, rejected => specific and true error, chain well-formed, constants equal their definitions, ids equal the reference hash, independent builds agree, no id collisions, generated moduli are distinct primes of the requested size = 1 mod 2N.",
+          "Security table transcribed independently; reference SHA-256 stands in for an independent party.", "DESIGN.md §3 C13"),
 }
 hook_commits = subprocess.check_output(["git", "-C", "/repo", "log", "--format=%H %s"]).decode().splitlines()
 hooks = [l.split()[0] for l in hook_commits if l.split(" ", 1)[1].startswith("verif hooks")]
